@@ -4,6 +4,7 @@ CONSTANTS
   P <- CP
   Ops <- COps
   InitStore <- CInit
+  Strategy <- CStrategy
 CONSTRAINT Progress
 POSTCONDITION TraceAccepted
 CHECK_DEADLOCK FALSE
